@@ -28,6 +28,29 @@ type c23Info struct {
 var c23ServerTypes = map[byte]bool{ref.CONNACK: true, ref.PUBLISH: true, ref.PUBACK: true, ref.PUBREC: true, ref.PUBREL: true,
 	ref.PUBCOMP: true, ref.SUBACK: true, ref.UNSUBACK: true, ref.PINGRESP: true}
 
+// c23Reasons: the reason codes MQTT 5 permits per server-sent packet type (3.2.2.2, 3.4.2.1,
+// 3.5.2.1, 3.6.2.1, 3.7.2.1, 3.9.3, 3.11.3, 3.14.2.1 restricted to codes a server may send).
+var c23Reasons = map[byte][]byte{
+	ref.CONNACK:    {0x00, 0x80, 0x81, 0x82, 0x83, 0x84, 0x85, 0x86, 0x87, 0x88, 0x89, 0x8A, 0x8C, 0x90, 0x95, 0x97, 0x99, 0x9A, 0x9B, 0x9C, 0x9D, 0x9F},
+	ref.PUBACK:     {0x00, 0x10, 0x80, 0x83, 0x87, 0x90, 0x91, 0x97, 0x99},
+	ref.PUBREC:     {0x00, 0x10, 0x80, 0x83, 0x87, 0x90, 0x91, 0x97, 0x99},
+	ref.PUBREL:     {0x00, 0x92},
+	ref.PUBCOMP:    {0x00, 0x92},
+	ref.SUBACK:     {0x00, 0x01, 0x02, 0x80, 0x83, 0x87, 0x8F, 0x91, 0x97, 0x9E, 0xA1, 0xA2},
+	ref.UNSUBACK:   {0x00, 0x11, 0x80, 0x83, 0x87, 0x8F, 0x91},
+	ref.DISCONNECT: {0x00, 0x80, 0x81, 0x82, 0x83, 0x87, 0x89, 0x8B, 0x8D, 0x8E, 0x8F, 0x90, 0x93, 0x94, 0x95, 0x96, 0x97, 0x98, 0x99, 0x9A, 0x9B, 0x9C, 0x9D, 0x9E, 0xA0, 0xA1, 0xA2},
+	ref.AUTH:       {0x00, 0x18, 0x19},
+}
+
+func c23ReasonOK(t, rc byte) bool {
+	for _, v := range c23Reasons[t] {
+		if v == rc {
+			return true
+		}
+	}
+	return false
+}
+
 func c23Check(cl *world.Client, in c23Info) []explore.Violation {
 	var out []explore.Violation
 	v := fmt.Sprintf("v%d", in.Ver)
@@ -75,6 +98,18 @@ func c23Check(cl *world.Client, in c23Info) []explore.Violation {
 			add("publish-topic-wildcard", "outbound PUBLISH topic %q contains a wildcard", p.Topic)
 		}
 		if in.Ver >= 5 {
+			switch p.Type {
+			case ref.SUBACK, ref.UNSUBACK:
+				for _, rc := range p.ReasonCodes {
+					if !c23ReasonOK(p.Type, rc) {
+						add(fmt.Sprintf("v5-reason-code:%s:%#x", name, rc), "%s carries %#x, which is not a %s reason code in MQTT 5", name, rc, name)
+					}
+				}
+			case ref.CONNACK, ref.PUBACK, ref.PUBREC, ref.PUBREL, ref.PUBCOMP, ref.DISCONNECT, ref.AUTH:
+				if !c23ReasonOK(p.Type, p.ReasonCode) {
+					add(fmt.Sprintf("v5-reason-code:%s:%#x", name, p.ReasonCode), "%s carries reason code %#x, which MQTT 5 does not define for %s", name, p.ReasonCode, name)
+				}
+			}
 			if in.NoProblem && p.Type != ref.PUBLISH && p.Type != ref.CONNACK && p.Type != ref.DISCONNECT {
 				if _, has := p.Props.Get(ref.PReasonString); has {
 					add("problem-info:reason-string:"+name, "%s carries a Reason String although the client set Request Problem Information 0", name)
